@@ -90,7 +90,10 @@ NP = [
     ("np.unique($a)", "(Np.unique {a})"),
     ("np.setdiff1d($a, $b)", "(Np.setdiff1d {a} {b})"),
     ("np.zeros($n, dtype=bool)", "(Np.zerosBool {n})"),
-    ("np.zeros($p.shape, dtype=$p.dtype)", "(Np.zerosLike {p})"),
+    # the dtype of the accumulator is part of the meaning: an integer accumulator truncates what np.add.at adds.
+    # `points.dtype` is the parameter `pdt`; the face normals come out of `_normalize` (a division): floating point
+    ("np.zeros($p.shape, dtype=points.dtype)", "(Np.zerosDT {p} pdt)"),
+    ("np.zeros($p.shape, dtype=face_normals.dtype)", "(Np.zerosDT {p} Np.DType.float)"),
     ("$m.copy()", "{m}"),
     # the rows of an integer array as opaque items (what the void view is for)
     ("np.ascontiguousarray($a).view(np.dtype((np.void, $a.dtype.itemsize * $a.shape[1])))", "{a}"),
@@ -129,7 +132,7 @@ NP_STMT = [
     ("$r[$i] = False", "r", "(Np.setConst {r} {i} false)"),
     ("$r[$i] = True", "r", "(Np.setConst {r} {i} true)"),
     ("$r[$i] = $v", "r", "(Np.setIdx {r} {i} {v})"),
-    ("np.add.at($acc, $i, $v)", "acc", "(Np.addAt {acc} {i} {v})"),
+    ("np.add.at($acc, $i, $v)", "acc", "(Np.addAtDT {acc} {i} {v})"),
 ]
 
 BINOP = {ast.Div: "(Np.divCol {a} {b})"}
@@ -164,9 +167,9 @@ CALLS = [
     ("$o.edge_lengths()", "(genEdgeLengths sqrt {o})"),
     ("$o.unique_edge_lengths()", "(genUniqueEdgeLengths sqrt {o})"),
     ("$o.tri_areas()", "genTriAreas sqrt {o}", "bind"),
-    ("_normalize($v)", "(genNormalize sqrt {v})"),
+    ("_normalize($v)", "(genNormalize sqrt ({v} : List (List Rat)))"),
     ("compute_face_normals($p, $t)", "(genComputeFaceNormals sqrt {p} {t})"),
-    ("compute_vertex_normals($p, $t)", "(genComputeVertexNormals sqrt {p} {t})"),
+    ("compute_vertex_normals($p, $t)", "(genComputeVertexNormals sqrt pdt {p} {t})"),
 ]
 
 FLOAT = "(({n} : Rat) / {d})"
@@ -406,11 +409,11 @@ def items():
         lambda: T().function(N._normalize, {"v": "v"}, ind=1))
     add("genComputeFaceNormals (sqrt : Rat → Rat) (points : List (List Rat)) (trilist : List (List Nat)) : List (List Rat)", "[]",
         lambda: T().function(N.compute_face_normals, {"points": "points", "trilist": "trilist"}, ind=1))
-    add("genComputeVertexNormals (sqrt : Rat → Rat) (points : List (List Rat)) (trilist : List (List Nat)) : List (List Rat)",
+    add("genComputeVertexNormals (sqrt : Rat → Rat) (pdt : Np.DType) (points : List (List Rat)) (trilist : List (List Nat)) : List (List Rat)",
         "[]", lambda: T().function(N.compute_vertex_normals, {"points": "points", "trilist": "trilist"}, ind=1))
     add("genTriNormals %s : Except Err (List (List Rat))" % GMESH, ".error .index",
         lambda: T(ret=".ok {e}").function(own(TriMesh, "tri_normals"), ME, ind=1))
-    add("genVertexNormals %s : Except Err (List (List Rat))" % GMESH, ".error .index",
+    add("genVertexNormals {C T : Type} (sqrt : Rat → Rat) (pdt : Np.DType) (s : NMesh (List Rat) C T) : Except Err (List (List Rat))", ".error .index",
         lambda: T(ret=".ok {e}").function(own(TriMesh, "vertex_normals"), ME, ind=1))
     # ---- the same masking methods on the heap (objects and arrays are cells; Core/C17Heap.lean)
     HSIG = "{α : Type} (w : World α) (s : Nat)"
